@@ -15,7 +15,7 @@ HEADER = ("From Coq Require Import List String ZArith.\nFrom V.C02 Require Impor
 
 # ----------------------------------------------------------------------------- AST helpers
 # expressions: ["lit", int|str|None] ["var", x] ["bin", op, a, b] ["not", a] ["and", a, b] ["or", a, b]
-#              ["assign", x, e] ["postinc", x] ["arr", [e...]] ["call", f, [e...]]
+#              ["assign", x, e] ["postinc", x] ["arr", [e...]] ["call", f, [e...]] ["calln", f, [e...], [[name, e]...]]
 # statements:  ["expr", e] ["echo", e] ["push", x, e] ["if", c, then, [[c, blk]...], else]
 #              ["while", c, blk] ["dowhile", blk, c] ["for", [e..], c, [e..], blk]
 #              ["foreach", e, k|None, v, blk] ["switch", e, [["case", e, blk] | ["default", blk]]]
@@ -63,6 +63,8 @@ def php_expr(e, top=False):
         return "[" + ", ".join(php_expr(x, True) for x in e[1]) + "]"
     if k == "call":
         return "%s(%s)" % (e[1], ", ".join(php_expr(x, True) for x in e[2]))
+    if k == "calln":
+        return "%s(%s)" % (e[1], ", ".join([php_expr(x, True) for x in e[2]] + ["%s: %s" % (n, php_expr(x, True)) for n, x in e[3]]))
     if k == "new":
         return "new %s(%s)" % (e[1], php_expr(e[2], True))
     if k == "msg":
@@ -228,6 +230,9 @@ def coq_expr(e):
         return "(EArr %s)" % coq_args(e[1])
     if k == "call":
         return "(ECall %s %s)" % (coq_string(e[1]), coq_args(e[2]))
+    if k == "calln":
+        return "(ECallN %s %s [%s] %s)" % (coq_string(e[1]), coq_args(e[2]), "; ".join(coq_string(n) for n, _ in e[3]),
+                                          coq_args([x for _, x in e[3]]))
     if k == "new":
         return "(ENew %s %s)" % (coq_string(e[1]), coq_expr(e[2]))
     if k == "msg":
@@ -361,7 +366,7 @@ def kinds_of(x, acc):
 
 STMT_KINDS = {"expr", "echo", "push", "setidx", "if", "while", "dowhile", "for", "foreach", "switch", "break", "continue",
               "return", "static", "try", "throw", "ifinst"}
-EXPR_KINDS = {"assign", "postinc", "call", "and", "or", "not", "arr", "new", "msg", "class", "same", "panic", "match", "idx", "idxinc", "closure", "callv", "prop", "setprop", "hi"}
+EXPR_KINDS = {"assign", "postinc", "call", "calln", "and", "or", "not", "arr", "new", "msg", "class", "same", "panic", "match", "idx", "idxinc", "closure", "callv", "prop", "setprop", "hi"}
 
 
 # ----------------------------------------------------------------------------- generator
@@ -428,6 +433,22 @@ class Gen:
             args[0] = ["bin", "Sub", var(sc["recvar"]), lit(1)]
         elif isrec:
             args[0] = lit(r.randint(0, isrec))
+        if name.startswith("f") and nargs <= npar and r.random() < 0.22:
+            # named arguments (the parameters of f<i> are n, a, b): a positional prefix, then a subset of the remaining
+            # parameters that contains the required ones, by name, in any order
+            pn = ["n", "a", "b"][:npar]
+            npos = r.randint(0, nargs)
+            rest = [i for i in range(npos, npar) if i < nreq or (i < nargs) or r.random() < 0.4]
+            r.shuffle(rest)
+            named = [[pn[i], args[i] if i < nargs else self.int_expr(sc, d + 2)] for i in rest]
+            c = r.random()
+            if c < 0.03 and named:
+                named.append([named[0][0], lit(1)])                  # Error: the name is used twice
+            elif c < 0.06:
+                named.append(["zz", lit(1)])                         # Error: unknown named parameter
+            elif c < 0.09 and npos > 0:
+                named.insert(r.randint(0, len(named)), [pn[0], lit(1)])   # Error: overwrites a positional argument
+            return ["calln", name, args[:npos], named]
         return ["call", name, args]
 
     def bool_expr(self, sc, d=0):
@@ -813,7 +834,7 @@ class Gen:
         if not void:
             body.append(["return", self.int_expr(sc)])
         # how deep callers may drive the recursion: linear recursion up to 7, tree recursion less
-        nsites = json.dumps(body).count('["call", "%s"' % name)
+        nsites = json.dumps(body).count('["call", "%s"' % name) + json.dumps(body).count('["calln", "%s"' % name)
         maxn = 0 if not recursive else (7 if nsites <= 1 else 5 if nsites == 2 else 3)
         self.funcs.append((name, npar, nreq, False, maxn, void))
         return {"name": name, "params": [[p, None if dflt is None else [dflt[0]]] for p, dflt in params], "body": body}
@@ -1106,6 +1127,72 @@ def index_programs():
     return out
 
 
+def namedarg_programs():
+    """named arguments of function calls (/repo 023935e, 79da08f, 783dd71): for f($a = 1, $b = 2, $c = 3) EVERY split into a
+    positional prefix and a set of named arguments of the remaining parameters, in every order (24 calls), each
+    argument a tracing call (evaluation order = source order); required + optional parameters; named recursion;
+    calls in loops and inside functions; and the four errors (unknown name, name used twice, name of a parameter
+    that got a positional argument, required parameter not passed), each with tracing arguments before and after the
+    offending one (the value of the offending argument is computed, the later ones are not)"""
+    import itertools
+    out = []
+    tr = {"name": "tr", "params": [["n", None]], "body": [tag("<", var("n")), ["return", var("n")]]}
+    f = {"name": "f", "params": [["a", [1]], ["b", [2]], ["c", [3]]],
+         "body": [tag("[a", var("a")), tag("b", var("b")), tag("c", var("c")),
+                  ["return", ["bin", "Add", ["bin", "Mul", var("a"), lit(100)], ["bin", "Add", ["bin", "Mul", var("b"), lit(10)], var("c")]]]]}
+    g = {"name": "g", "params": [["x", None], ["y", [10]]], "body": [["return", ["bin", "Sub", ["bin", "Mul", var("x"), lit(2)], var("y")]]]}
+    h = {"name": "h", "params": [["p", None], ["q", None], ["r", [6]]],
+         "body": [["return", ["bin", "Add", ["bin", "Mul", var("p"), lit(100)], ["bin", "Add", ["bin", "Mul", var("q"), lit(10)], var("r")]]]]}
+    fact = {"name": "fact", "params": [["n", None], ["acc", [1]]],
+            "body": [["if", ["bin", "Le", var("n"), lit(1)], [["return", var("acc")]], [], []],
+                     ["return", ["calln", "fact", [], [["acc", ["bin", "Mul", var("acc"), var("n")]], ["n", ["bin", "Sub", var("n"), lit(1)]]]]]]}
+    wrap = {"name": "wrap", "params": [["v", None]], "body": [["return", ["calln", "f", [var("v")], [["c", ["bin", "Add", var("v"), lit(1)]]]]]]}
+    base = {"funcs": [tr, f, g, h, fact, wrap], "closures": []}
+    t = lambda k: ["call", "tr", [lit(k)]]
+    names = ["a", "b", "c"]
+    calls = []
+    for npos in range(4):
+        rest = names[npos:]
+        for k in range(len(rest) + 1):
+            for sub in itertools.combinations(rest, k):
+                for perm in itertools.permutations(sub):
+                    calls.append((npos, perm))
+    k = [3]
+    def mk(npos, perm):
+        pos = []
+        for _ in range(npos):
+            k[0] += 1
+            pos.append(t(k[0] % 9 + 1))
+        named = []
+        for n in perm:
+            k[0] += 1
+            named.append([n, t(k[0] % 9 + 1)])
+        return ["calln", "f", pos, named]
+    for i in range(0, len(calls), 6):
+        out.append(dict(base, main=[tag(" r=", mk(*c)) for c in calls[i:i + 6]]))
+    out.append(dict(base, main=[tag(" g1=", ["calln", "g", [], [["x", lit(1)]]]), tag(" g2=", ["calln", "g", [], [["y", lit(2)], ["x", lit(3)]]]),
+                                tag(" g3=", ["calln", "g", [lit(4)], [["y", lit(5)]]]), tag(" h1=", ["calln", "h", [lit(1)], [["r", lit(2)], ["q", lit(3)]]]),
+                                tag(" h2=", ["calln", "h", [], [["q", t(3)], ["p", t(1)]]]), tag(" h3=", ["calln", "h", [lit(1), lit(2)], [["r", lit(9)]]]),
+                                tag(" fact=", ["calln", "fact", [], [["n", lit(5)]]]), tag(" w=", ["call", "wrap", [lit(4)]]),
+                                ["for", [["assign", "i", lit(0)]], ["bin", "Lt", var("i"), lit(3)], [["postinc", "i"]],
+                                 [tag(" l=", ["calln", "f", [var("i")], [["c", ["bin", "Mul", var("i"), lit(2)]]]]), tag(" i=", var("i"))]],
+                                tag(" nest=", ["calln", "g", [], [["y", ["calln", "g", [lit(1)], [["y", lit(1)]]]], ["x", ["calln", "f", [], [["b", lit(0)]]]]]])]))
+    # the errors: output up to the offending argument is kept, the script ends with an uncaught Error
+    errs = [["calln", "f", [], [["b", t(1)], ["d", t(2)], ["a", t(3)]]],                 # unknown name
+            ["calln", "f", [], [["b", t(1)], ["b", t(2)], ["a", t(3)]]],                 # the name twice
+            ["calln", "f", [t(1), t(2)], [["c", t(3)], ["a", t(4)], ["b", t(5)]]],       # parameter already has a positional argument
+            ["calln", "f", [t(1), t(2), t(3), t(4)], [["c", t(5)]]],                     # the same, with a surplus positional argument
+            ["calln", "g", [], [["y", t(1)]]],                                           # required parameter not passed
+            ["calln", "h", [t(1)], [["r", t(2)]]],                                       # required parameter in the middle not passed
+            ["calln", "nosuch", [], [["a", t(1)]]]]                                      # undefined function: before the arguments
+    for e in errs:
+        out.append(dict(base, main=[echo_("a;"), tag(" ok=", ["calln", "f", [], [["c", lit(7)]]]), tag(" r=", e), echo_("never")]))
+    out.append(dict(base, main=[["for", [["assign", "i", lit(0)]], ["bin", "Lt", var("i"), lit(3)], [["postinc", "i"]],
+                                 [tag(" i=", var("i")), ["if", ["bin", "Eq", var("i"), lit(1)], [tag(" r=", errs[0])], [], [tag(" r=", ["calln", "f", [var("i")], [["c", lit(0)]]])]]]],
+                                echo_("never")]))
+    return out
+
+
 def callarg_programs():
     """argument lists longer and shorter than the parameter list: every argument expression is evaluated, left to
     right, also the surplus ones (a tracing callee shows it); a required parameter without argument is an error
@@ -1317,6 +1404,31 @@ class Probe:
                     nf["vars"][x] = d[0]
                 else:
                     raise _Thr(("err", "too few arguments"))
+            try:
+                self.block(f["body"], nf)
+            except _Ret as r:
+                return r.v
+            return None
+        if k == "calln":
+            f = self.funcs[e[1]]
+            vs = [self.ev(x, fr) for x in e[2]]
+            names = [x for x, _ in f["params"]]
+            given = {}
+            for n, x in e[3]:
+                v = self.ev(x, fr)
+                if n not in names or names.index(n) < len(vs) or n in given:
+                    raise _Thr(("err", "named parameter"))
+                given[n] = v
+            nf = {"fn": f["name"], "vars": {}, "static": set()}
+            for i, (x, d) in enumerate(f["params"]):
+                if i < len(vs):
+                    nf["vars"][x] = vs[i]
+                elif x in given:
+                    nf["vars"][x] = given[x]
+                elif d is not None:
+                    nf["vars"][x] = d[0]
+                else:
+                    raise _Thr(("err", "argument not passed"))
             try:
                 self.block(f["body"], nf)
             except _Ret as r:
@@ -1772,6 +1884,25 @@ BUILTIN_MIN_ARITY = [
 ARITY_REJECTION = ("Too few arguments", "ArgumentCountError", "缺少参数")
 
 
+# calls with named arguments outside the Coq core (closures, by-reference and variadic parameters, built-ins, methods,
+# constructors): engine only, compared with the output PHP prescribes
+NAMED_ENGINE_PROBES = [
+    ("closure", '$cl = function($a = 1, $b = 2) { return "$a,$b"; }; echo $cl(b: 5), "|", $cl(7, b: 5), "|", $cl(b: 5, a: 6);', "1,5|7,5|6,5"),
+    ("arrow", '$ar = fn($p, $q = 3) => $p * $q; echo $ar(q: 4, p: 2), "|", $ar(p: 5);', "8|15"),
+    ("byref", 'function inc(&$x, $by = 1) { $x += $by; } $v = 1; inc(by: 5, x: $v); inc(x: $v); echo $v;', "7"),
+    ("variadic", 'function va($a, ...$rest) { return $a . ":" . count($rest); } echo va(1, 2, 3), "|", va(a: 7), "|", va(7);', "1:2|7:0|7:0"),
+    ("builtin", 'echo str_pad(string: "a", length: 3, pad_string: "-"), "|", implode(separator: ",", array: [1, 2]), "|", json_encode(value: [1]);', "a--|1,2|[1]"),
+    ("typed", 'function t(int $a, string $b = "x") { return $a . $b; } echo t(b: "y", a: 3), "|", t(a: 4);', "3y|4x"),
+    ("method", 'class C { function m($a = 1, $b = 2, $c = 3) { return "$a,$b,$c"; } static function s($a = 1, $b = 2, $c = 3) { return "$a,$b,$c"; } } '
+               '$o = new C(); echo $o->m(c: 9), "|", $o->m(5, c: 9), "|", C::s(c: 9), "|", C::s(5, c: 9);', "1,2,9|5,2,9|1,2,9|5,2,9"),
+    ("constructor", 'class K { public $v; function __construct($a = 1, $b = 2, $c = 3) { $this->v = "$a,$b,$c"; } } '
+                    'echo (new K(c: 9))->v, "|", (new K(5, c: 9))->v, "|", (new K(b: 7, a: 8))->v;', "1,2,9|5,2,9|8,7,3"),
+    ("promoted", 'class P { function __construct(public $x = 1, public $y = 2) {} } $p = new P(y: 9); echo $p->x, ",", $p->y;', "1,9"),
+    ("caught", 'function f($a = 1) { return $a; } try { f(zz: 1); } catch (Error $e) { echo "E;"; } try { f(1, a: 2); } catch (Error $e) { echo "E;"; } '
+               'function g($x, $y = 1) { return $x; } try { g(y: 2); } catch (Error $e) { echo "E;"; } echo f(a: 3);', "E;E;E;3"),
+]
+
+
 def builtin_arity_sources():
     out = []
     for name, n, call in BUILTIN_MIN_ARITY:
@@ -1834,6 +1965,8 @@ def main(ck):
             cases.append((pr, True, None, "match"))
         for pr in closure_programs():
             cases.append((pr, True, None, "closure"))
+        for pr in namedarg_programs():
+            cases.append((pr, True, None, "namedargs"))
         for pr in callarg_programs():
             cases.append((pr, True, None, "callargs"))
         for pr in static_branch_programs():
@@ -1933,6 +2066,16 @@ def main(ck):
                 ck.violation("builtin-arity:%s" % name, {"case": {"builtin": name}, "php": src, "impl_out": o,
                              "clause": "a call passing the minimum documented number of arguments is not rejected for its argument count"})
     ck.cov["builtin_min_arity_calls"] = len(arity)
+    named = [] if ck.replay and not (json.load(open(ck.replay)).get("case") or {}).get("named_probe") else NAMED_ENGINE_PROBES
+    if ck.replay and named:
+        named = [r for r in named if r[0] == json.load(open(ck.replay))["case"]["named_probe"]]
+    if named:
+        nsrcs, nres = run_impl(binary, None, ck, srcs=["<?php\n" + r[1] + "\n" for r in named])
+        for (name, code, exp), src, o in zip(named, nsrcs, nres):
+            if o.get("outcome") != "ok" or o.get("out") != exp:
+                ck.violation("named-args:%s" % name, {"case": {"named_probe": name}, "php": src, "impl_out": o, "expected_out": exp,
+                             "clause": "named arguments are bound by parameter name (engine-only probe, outside the Coq core)"})
+    ck.cov["named_argument_engine_probes"] = len(named)
 
     # ---- measured coverage
     dist = {}
@@ -1952,7 +2095,7 @@ def main(ck):
     ck.cov["construct_occurrences"] = dist
     ck.cov["program_size_median"] = sizes[len(sizes) // 2] if sizes else 0
     ck.cov["program_size_max"] = sizes[-1] if sizes else 0
-    ck.cov["families"] = {f: sum(1 for c in cases if c[3] == f) for f in ("nest2", "alias", "escape", "recursion", "paramalias", "match", "closure", "callargs", "staticbranch", "index", "fallthrough", "random", "dirty", "replay")}
+    ck.cov["families"] = {f: sum(1 for c in cases if c[3] == f) for f in ("nest2", "alias", "escape", "recursion", "paramalias", "match", "closure", "callargs", "namedargs", "staticbranch", "index", "fallthrough", "random", "dirty", "replay")}
     ck.cov["impl_outcomes"] = outcome_hist
     ck.samples = [srcs[len(srcs) // 2], srcs[-1]] if srcs else []
     ck.finish(level="proof", evaluations=len(cases), distinct_nontrivial=nontriv,
